@@ -34,6 +34,40 @@ def _run_traces(chk: Check, behs, source, make=None, start_tid=1, **probe_kw):
     return len(traces)
 
 
+def _builtin_observer_query_traces(chk, behs, rng, queries, start_tid, source):
+    """The dispatcher's answers with the LIBRARY'S OWN observers subscribed (feature observers, rewards, history,
+    residual graph updater - the environments' default company): an observer that writes through a memoised answer
+    it was handed (a set, a list) corrupts what the next caller gets."""
+    from . import dsession as _ds
+    from .ochecks import random_creations
+    traces = []
+    for i, b in enumerate(behs):
+        s = _ds.DSession(start_tid + i, b["inst"], b["filt"], ())
+        cr = random_creations(rng)
+        upd = rng.random() < 0.8
+        pos = rng.randint(0, len(cr))
+        for k, (t, a) in enumerate(cr):
+            if upd and k == pos:
+                s.create_graph_updater(rng.choice(["disjunctive", "agent_task", "agent_task_with_jobs"]), True, True)
+            s.create_builtin(t, a)
+        if upd and pos >= len(cr):
+            s.create_graph_updater(rng.choice(["disjunctive", "agent_task"]), True, True)
+        for q in queries(rng):
+            s.query(q)
+        for a in b["hist"]:
+            if a["a"] == "D":
+                s.dispatch(a["j"], a["p"], a["m"])
+            elif a["a"] == "Reset":
+                s.reset()
+            else:
+                continue
+            for q in queries(rng):
+                s.query(q)
+        traces.append(s.trace())
+    chk.monitor(traces, source=source)
+    return len(traces)
+
+
 def _n(chk, quick, thorough):
     return min(thorough, 5 * quick) if chk.tier == "thorough" else quick   # thorough is capped at 5x quick: every tier must finish well inside its timeout on a shared machine
 
@@ -142,6 +176,8 @@ def c05():
             s.create_builtin("UnscheduledOperationsObserver")
         traces.append(s.trace())
     chk.monitor(traces, source="unscheduled-observer-attached-mid-history")
+    _builtin_observer_query_traces(chk, behs[: _n(chk, 40, 300)] + rb[: _n(chk, 40, 300)], rng, qprobe,
+                                   base + len(traces) + 1, "queries-with-built-in-observers-subscribed")
     return chk.finish(
         "TLC: memoisation cache as a state variable, every order of the ten memoised queries "
         "interleaved with dispatches and resets (bounded depth); traces: TLC-chosen query "
@@ -163,7 +199,14 @@ def c06():
     rng = random.Random(chk.seed + 6)
     rb = [random_behaviour(rng, max_jobs=5, max_ops=5, max_m=4, durs=(1, 2, 3, 5, 8) if i % 2 else (0, 1, 2, 3))
           for i in range(_n(chk, 150, 1500))]
-    _run_traces(chk, rb, "random-large", start_tid=n + 1, query_probe=probe, min_start_probe=True)
+    n += _run_traces(chk, rb, "random-large", start_tid=n + 1, query_probe=probe, min_start_probe=True)
+    # several episodes on one dispatcher: time starts again at 0 after a reset and ends at THIS episode's makespan
+    behs_r, _ = tlc_behaviours("c06r", fam="FamA", filt="FiltA", mode="complete", resets=2,
+                               simulate=f"num={_n(chk, 200, 1500)}", workers=4, depth=60)
+    rb_r = [random_behaviour(rng, resets=0.12, max_jobs=4, max_ops=4, max_m=3) for _ in range(_n(chk, 100, 800))]
+    n += _run_traces(chk, behs_r + rb_r, "episodes-separated-by-resets", start_tid=n + 1, query_probe=probe)
+    _builtin_observer_query_traces(chk, behs[: _n(chk, 60, 400)] + rb[: _n(chk, 40, 300)] + rb_r[: _n(chk, 30, 200)],
+                                   rng, probe, n + 1, "time-and-completed-set-with-built-in-observers-subscribed")
     return chk.finish(
         "TLC: now' >= now and completed' >= completed for every accepted dispatch from every "
         "reachable state (no filter: all instances; filters: positive durations), now = makespan "
@@ -226,6 +269,16 @@ def c09():
     traces = [env_trace(base + i, b, random_env_cfg(rng, True), rng, episodes=rng.choice([1, 2]), fault_prob=0.4)
               for i, b in enumerate(eb)]
     chk.monitor(traces, source="environment-steps-with-invalid-decisions")
+    from .echecks import multi_traces
+    mt, t0 = [], base + len(eb) + 1
+    for gi, gk in enumerate([dict(num_jobs=(2, 3), num_machines=(2, 4), duration_range=(1, 5)),
+                             dict(num_jobs=(2, 4), num_machines=(1, 3), duration_range=(1, 3))]):
+        for rep in range(_n(chk, 2, 6)):
+            ts = multi_traces(t0, rng, dict(gk, seed=chk.seed * 50 + 7 * gi + rep), random_env_cfg(rng, True),
+                              resets=_n(chk, 10, 30), steps_rng=rng, fault_prob=0.5)
+            t0 += len(ts) + 1
+            mt.extend(ts)
+    chk.monitor(mt, source="multi-environment-steps-with-invalid-decisions")
     return chk.finish(
         "TLC: rejected requests (not-next operation, ineligible machine, machine id 0 / M+1, None on a "
         "flexible operation) enabled exactly when invalid and leaving every variable unchanged, at every "
@@ -281,6 +334,34 @@ def c10():
             s.create_or_get_cond("RemainingOperationsObserver", ["jobs"])
         traces.append(s.trace())
     chk.monitor(traces, source="create-or-get-with-condition")
+    # twins: several built-in observers of one class (and therefore of equal state); one of them is unsubscribed
+    traces = []
+    twins = [("DurationObserver", None), ("IsReadyObserver", ["jobs"]), ("IsScheduledObserver", None),
+             ("PositionInJobObserver", None), ("EarliestStartTimeObserver", None)]
+    for i in range(_n(chk, 40, 300)):
+        b = behs[(3 * i) % len(behs)]
+        s = _ds.DSession(base + 1000 + i, b["inst"], b["filt"], ())
+        t, fts = rng.choice(twins)
+        for _ in range(rng.randint(2, 3)):
+            s.create_builtin(t, fts)
+        if rng.random() < 0.5:
+            s.create_builtin(*rng.choice(twins))
+        acts = [a for a in b["hist"] if a["a"] == "D"]
+        cut = rng.randint(0, len(acts))
+        for a in acts[:cut]:
+            s.dispatch(a["j"], a["p"], a["m"])
+        order = list(range(len(s.extra)))
+        rng.shuffle(order)
+        for k in order[: rng.randint(1, len(order))]:
+            s.unsubscribe_builtin(k)
+            if acts[cut:] and rng.random() < 0.5:
+                a = acts[cut]
+                cut += 1
+                s.dispatch(a["j"], a["p"], a["m"])
+        for a in acts[cut:]:
+            s.dispatch(a["j"], a["p"], a["m"])
+        traces.append(s.trace())
+    chk.monitor(traces, source="unsubscribe-one-of-several-built-in-twins")
     return chk.finish(
         "TLC: one Notify step per subscriber; notification log = dispatches made while subscribed, in "
         "subscription order, each seeing the post-state through the memoised queries; singleton rule with "
